@@ -69,6 +69,9 @@ fn translate_fn(idx: &Index, fi: &FnInfo) -> R<Translated> {
     if fi.self_kind == SelfKind::MutRef {
         return Err("&mut self method".into());
     }
+    if fi.param_ref.iter().any(|r| *r == 2) {
+        return Err("&mut parameter".into());
+    }
     let mut cx = new_ctx(idx, &fi.module, fi.self_ty.clone(), fi.ret.clone(), fi.tybind.clone(), &fi.lean_name);
     let mut binders = String::new();
     if fi.self_kind != SelfKind::None {
@@ -130,11 +133,14 @@ fn translate_const(idx: &Index, ci: &ConstInfo) -> R<Translated> {
     let mut cx = new_ctx(idx, &ci.module, None, ci.ty.clone(), HashMap::new(), &ci.lean_name);
     let ty_s = cx.lean_ty(&ci.ty)?;
     let v = expr::tr_expr(&mut cx, &ci.expr, Some(&ci.ty))?;
-    if !cx.aux_defs.is_empty() {
-        return Err("loop in const".into());
+    let mut text = String::new();
+    for a in &cx.aux_defs {
+        text.push_str(a);
+        text.push('\n');
     }
-    let text = format!("/-- {}:{} -/\ndef {} {} : {} :=\n  {}\n", ci.file, ci.line, ci.lean_name, BINDERS, ty_s, v.val());
-    Ok(Translated { key: ci.key.clone(), text, deps: cx.deps, const_deps: cx.const_deps, sf_calls: cx.sf_calls, file: ci.file.clone(), has_loop: false })
+    text.push_str(&format!("/-- {}:{} -/\ndef {} {} : {} :=\n{}\n", ci.file, ci.line, ci.lean_name, BINDERS, ty_s, indent(&v.val())));
+    let has_loop = !cx.aux_defs.is_empty();
+    Ok(Translated { key: ci.key.clone(), text, deps: cx.deps, const_deps: cx.const_deps, sf_calls: cx.sf_calls, file: ci.file.clone(), has_loop })
 }
 
 pub fn indent(s: &str) -> String {
@@ -176,6 +182,10 @@ fn gen_file_name(file: &str) -> String {
         _ => ("R", parts.clone()),
     };
     format!("{}_{}", pre, rest.join("_"))
+}
+
+pub fn write_if_changed_pub(path: &Path, content: &str) {
+    write_if_changed(path, content)
 }
 
 fn write_if_changed(path: &Path, content: &str) {
